@@ -505,6 +505,51 @@ pub fn run(ctx: &Ctx, rep: &mut Report) {
                         matrix(rep, &mut u, ep, &stranger, "named-address-is-the-all-zero-account");
                     }
                 }
+                // entry points of the gateway this workload does not know, called by a stranger who names
+                // itself and lists the message that is approved for `caller`: the message must stay
+                // approved and unconsumed, whatever the entry point says
+                {
+                    let names = unknown_entry_points("axelar-gateway", &["owner", "transfer_ownership", "operator", "transfer_operatorship", "version", "upgrade", "migrate"]);
+                    if !names.is_empty() {
+                        let ck = u.checkpoint();
+                        let e = u.env.clone();
+                        let one = crate::gw::sdk_message(&e, &m);
+                        let mut list: SVec<axelar_gateway::types::Message> = SVec::new(&e);
+                        list.push_back(one.clone());
+                        let tuples: Vec<SVec<Val>> = vec![
+                            (stranger.clone(), list.clone()).into_val(&e),
+                            (stranger.clone(), one.clone()).into_val(&e),
+                            (list,).into_val(&e),
+                            (one,).into_val(&e),
+                            (stranger.clone(), sstr(&e, &m.source_chain), sstr(&e, &m.message_id), sstr(&e, &m.source_address), BytesN::from_array(&e, &m.payload_hash)).into_val(&e),
+                        ];
+                        let mut bad: Option<String> = None;
+                        'probe: for auth in [Auth::AllBy(stranger.clone()), Auth::Nobody] {
+                            for name in &names {
+                                for t in &tuples {
+                                    if u.try_unknown(&g.addr, std::slice::from_ref(name), std::slice::from_ref(t), &auth) > 0 {
+                                        let (a, mm) = (g.addr.clone(), m.clone());
+                                        let still = u.query(move |env| {
+                                            let c = AxelarGatewayClient::new(env, &a);
+                                            c.is_message_approved(&sstr(env, &mm.source_chain), &sstr(env, &mm.message_id), &sstr(env, &mm.source_address), &addr_of(env, &mm.contract), &BytesN::from_array(env, &mm.payload_hash))
+                                                && !c.is_message_executed(&sstr(env, &mm.source_chain), &sstr(env, &mm.message_id))
+                                        });
+                                        if !still {
+                                            bad = Some(name.clone());
+                                            break 'probe;
+                                        }
+                                    }
+                                }
+                            }
+                        }
+                        rep.count("unknown-entry-point-tried");
+                        rep.eval("gateway.unknown-entry-points", &format!("gateway.unknown|stranger|{}", bad.is_none()), true);
+                        if let Some(name) = bad {
+                            rep.violation("acted-without-named-address:stranger:gateway.unknown-entry-point", format!("after a stranger's call of {} the message approved for another address is no longer approved and unconsumed", name));
+                        }
+                        u.restore(&ck);
+                    }
+                }
                 proxy_variant(rep, &mut u, "gateway.call_contract", &proxy, &g.addr, "call_contract", &|env, n| (n.clone(), sstr(env, b"dest"), sstr(env, b"0xd"), sbytes(env, b"p")).into_val(env), &caller);
                 // validate_message through the proxy: naming the proxy consumes the proxy's message; naming
                 // the other app must fail for lack of its authorisation
